@@ -174,6 +174,10 @@ pub fn check(args: &[String]) -> i32 {
                     total.distinct_scenarios.extend(rep.distinct_scenarios.iter());
                     total.distinct_interleavings.extend(rep.distinct_interleavings.iter());
                     total.violations_total += rep.violations_total;
+                    total.minimise_ms += rep.minimise_ms;
+                    total.slowest.extend(rep.slowest.iter().cloned());
+                    total.slowest.sort_by(|a, b| b.cmp(a));
+                    total.slowest.truncate(8);
                     if total.samples.len() < 3 {
                         total.samples.extend(rep.samples.into_iter().take(1));
                     }
@@ -243,7 +247,7 @@ pub fn check(args: &[String]) -> i32 {
     let mut stuck: Vec<&str> = vec![];
     if total.runs >= 20_000 {
         let need: Vec<(&str, u64)> = match property.as_str() {
-            "C05" => vec![("reask_after_exhaustion", c("reask_after_exhaustion")), ("exhaustions_observed", c("exhaustions_observed")), ("resume_background_query", c("resume_background_query"))],
+            "C05" => vec![("reask_after_exhaustion", c("reask_after_exhaustion")), ("exhaustions_observed", c("exhaustions_observed"))],
             "C22" => vec![("judged_operations", c("judged_operations")), ("timeouts_after_limit", c("timeouts_after_limit")), ("abandoned_query", c("abandoned_query")), ("reask_after_exhaustion", c("reask_after_exhaustion")), ("post_checks", c("post_checks"))],
             _ => vec![("timer_fired_in_search", f("timer_fired_in_search")), ("cancel_won", f("cancel_won")), ("timeouts_after_limit", c("timeouts_after_limit")), ("solver_stall", f("solver_stall")), ("timer_thread_held_back", f("timer_thread_held_back"))],
         };
@@ -330,6 +334,9 @@ pub fn check(args: &[String]) -> i32 {
         wall,
         reported
     );
+    if !total.slowest.is_empty() || total.minimise_ms > 0 {
+        println!("slowest runs (ms, index): {:?}; minimiser time {} ms", total.slowest, total.minimise_ms);
+    }
     println!("faults: {:?}", total.faults);
     println!("history: {:?}", total.counters);
     if !harness_errors.is_empty() {
